@@ -69,6 +69,15 @@ def run(tier):
         n = len(m["$map"]) if "$map" in m else len(m)
         jobs.append({"ctx": {"m": m}, "steps": [{"op": "render_str", "src": src, "auto": False}]})
         meta.append(([str(m)], "keys/values/pairs", src, "true," * n + "|true,true,%d" % n))
+    # argument values at and beyond the edges ("all argument values"): value or error, never a panic
+    EDGE = [-1, 0, {"$i128": str(2**100)}, {"$u128": str(2**128 - 1)}, {"$i64": str(-2**63)}, {"$f64": "1e30"}, {"$f64": "nan"}, None, "x", "", [1], {"$undef": 1}]
+    for xs_ in ([], [1, 2, 3], [{"k": 1}, {"k": None}], "abc"):
+        for call in ("nth(n=a)", "join(sep=a)", "sort(attribute=a)", "group_by(attribute=a)", "get(key=a)", "get(key='k', default=a)", "split(pat=a)", "first", "last", "unique", "reverse", "length"):
+            for a in EDGE:
+                jobs.append({"ctx": {"xs": xs_, "a": a} if a != {"$undef": 1} else {"xs": xs_}, "steps": [{"op": "render_str", "src": "{{ xs | " + call + " }}", "auto": False}]})
+                meta.append(([str(xs_), str(a)], "edge:" + call, "{{ xs | " + call + " }}", "ANYRESULT"))
+                if "a)" not in call:
+                    break
     res = vp.run_jobs(jobs, tag="c16", timeout=3000)
     for (xs, name, src, exp), rr, job in zip(meta, res, jobs):
         C.count()
@@ -78,6 +87,8 @@ def run(tier):
         key = {"filter": name, "xs": xs}
         if x.get("panic") or x.get("abort"):
             C.violation(dict(key, kind="panic"), "panic: %s on %s: %s" % (name, xs, x.get("msg")), {"job": job, "result": x})
+        elif exp == "ANYRESULT":
+            pass
         elif isinstance(exp, tuple):
             got = x.get("out", "").replace("N,", "") if x.get("ok") else None
             if got is not None and exp[0] == "NNK":
